@@ -30,6 +30,13 @@ fn rand_text(rng: &mut Rng) -> Vec<u8> {
     s.into_bytes()
 }
 
+/// Empty or blank statement text (the lower end of the payload-length range): delivered like any
+/// other text.
+pub fn blank_text(rng: &mut Rng) -> Vec<u8> {
+    let n = if rng.chance(1, 3) { 0 } else { rng.range(1, 6) as usize };
+    (0..n).map(|_| *rng.pick(&[b' ', b'\t', b'\r', b'\n', 0x0c, b' '])).collect()
+}
+
 fn use_stmt(rng: &mut Rng) -> (Vec<u8>, String) {
     let name = ident(rng);
     let mut s = String::from(if rng.bool() { "USE" } else { "use" });
@@ -76,7 +83,25 @@ pub fn gen_conv(rng: &mut Rng, rep: &mut Report) -> Conv {
         }
         let choice = rng.below(100);
         let e = match choice {
-            0..=14 => {
+            0..=2 => {
+                let t = blank_text(rng);
+                match rng.below(4) {
+                    0 => {
+                        rep.counters.class("Prepare/empty-or-blank -> on_prepare".into());
+                        cv.push(MCmd::Prepare(t), Some(Script::PrepErr(1065, b"Query was empty".to_vec())))
+                    }
+                    1 => {
+                        rep.counters.class("InitDb/empty-or-blank -> on_init".into());
+                        cv.push(MCmd::Init(t), None)
+                    }
+                    _ => {
+                        rep.counters.class("Query/empty-or-blank -> on_query".into());
+                        rep.counters.inc("expect_on_query_blank");
+                        cv.push(MCmd::Query(t), None)
+                    }
+                }
+            }
+            3..=14 => {
                 let t = rand_text(rng);
                 rep.counters.class("Query/random-text -> on_query".into());
                 cv.push(MCmd::Query(t), None)
@@ -186,7 +211,7 @@ pub fn gen_conv(rng: &mut Rng, rep: &mut Report) -> Conv {
 
 pub fn run(ctx: &Ctx) -> Report {
     let mut rep = Report::default();
-    rep.rule = "cases = random command sequences (1-40 commands over the nine kinds, texts from random/near-miss/built-in/USE-spelling/invalid-UTF-8 pools, random 32-bit statement ids); a class is a (command kind, text class) -> expected-routing pair; a case is non-trivial when at least one callback or built-in answer was compared against the reference model".into();
+    rep.rule = "cases = random command sequences (1-40 commands over the nine kinds, texts from random/empty-or-blank/near-miss/built-in/USE-spelling/invalid-UTF-8 pools, random 32-bit statement ids); a class is a (command kind, text class) -> expected-routing pair; a case is non-trivial when at least one callback or built-in answer was compared against the reference model".into();
     let n = if ctx.miri { 8 } else { ctx.n(20_000, 1_000_000) };
     let r = par_cases(ctx, "C02", "seq", n, |rng, i, rep| {
         let cv = gen_conv(rng, rep);
@@ -218,9 +243,63 @@ pub fn run(ctx: &Ctx) -> Report {
         }
     });
     rep.merge(r);
+
+    // ---- the transport reports Interrupted / WouldBlock / TimedOut on one operation (a signal, a
+    //      socket timeout) and works again afterwards. Whether the server gives up or carries on is
+    //      not C02's business; what it does hand to the shim must still be the client's bytes: the
+    //      callbacks are a prefix of the model's list if run_on ends with an error, the whole list
+    //      if it returns Ok.
+    if !ctx.miri {
+        let n = ctx.n(6000, 300_000);
+        let r = par_cases(ctx, "C02", "transient-errors", n, |rng, i, rep| {
+            let cv = gen_conv(rng, rep);
+            let mut case = cv.case();
+            let (input, _) = case.input();
+            // reads that end inside commands, so that a partly buffered command meets the error
+            case.sched = make_sched(rng, [SchedKind::Random, SchedKind::OneByte, SchedKind::HeaderCuts, SchedKind::Fixed][(i % 4) as usize], &input);
+            let dry = run_case(&case);
+            if harness_panic(&dry, rep) {
+                return;
+            }
+            let nops = dry.world.nops.max(1);
+            let kind = 100 + (i / 4 % 3) as u8;
+            case.fault.err_at = Some(rng.below(nops));
+            case.fault.persistent = false;
+            case.fault.err_kind = kind;
+            let obs = run_case(&case);
+            rep.evaluations += 1;
+            if harness_panic(&obs, rep) {
+                return;
+            }
+            let kname = ["Interrupted", "WouldBlock", "TimedOut"][(kind - 100) as usize];
+            rep.counters.class(format!("transient {} on {:?} -> {}", kname, obs.world.fault_op, obs.outcome.class()));
+            let d = || J::obj().set("commands", cv.summary()).set("fault", format!("{} at transport operation #{} ({:?}) of {}", kname, case.fault.err_at.unwrap(), obs.world.fault_op, nops)).set("sched", case.sched.describe()).set("outcome", obs.outcome.describe());
+            if i < 2 {
+                rep.sample(d());
+            }
+            if let Outcome::Panic { file, line, msg } = &obs.outcome {
+                rep.violations.push(viol("C02", format!("C02 {}", panic_signature(file, *line, msg)), format!("a transient {} made run_on panic: {}", kname, obs.outcome.describe()), d()));
+                return;
+            }
+            if obs.world.fault_op.is_none() {
+                rep.counters.inc("transient_fault_not_reached");
+            }
+            let viols = if obs.outcome == Outcome::Ok { routing_violations(&obs, &cv) } else { routing_prefix_violations(&obs, &cv) };
+            for (sig, what) in viols {
+                rep.violations.push(viol("C02", format!("C02 transient-error:{}", sig), format!("after a transient {} on {:?}: {}", kname, obs.world.fault_op, what), d()));
+            }
+            if obs.outcome == Outcome::Ok {
+                rep.counters.inc("transient_errors_survived");
+            } else {
+                rep.counters.inc("transient_errors_ending_the_connection");
+            }
+            rep.counters.add("callbacks_observed", obs.log.cbs.len() as u64);
+        });
+        rep.merge(r);
+    }
     rep.merge(super::mega::run(ctx, "C02", 1500, 60000));
     if ctx.strict() {
-        for k in ["expect_on_query", "expect_on_prepare", "expect_on_init", "expect_on_execute", "expect_on_close", "expect_builtin_answer", "expect_quit", "expect_invalid_utf8_rejection"] {
+        for k in ["expect_on_query", "expect_on_query_blank", "expect_on_prepare", "expect_on_init", "expect_on_execute", "expect_on_close", "expect_builtin_answer", "expect_quit", "expect_invalid_utf8_rejection"] {
             rep.require(k, 1);
         }
     }
